@@ -27,7 +27,8 @@ CHECKS = {
         "release likewise (post-releases/local builds of V rejected by >V, pre/dev releases by <V); for any literal and "
         "candidates of another release, membership is plain interval membership. Spec/Specifier.v is validated against "
         "packaging.specifiers on every run; the parser and VersionRange.allows models are tied to the code by running the "
-        "extracted model and parse_constraint(...).allows on the same ~90k (specifier set, candidate) cases; the property "
+        "extracted model and parse_constraint(...).allows on the same ~110k (specifier set, candidate) cases, and VersionRange.allows itself is "
+        "re-translated from /repo on every run and proved equal to the model's (a change of meaning breaks a proof obligation); the property "
         "itself is evaluated on the implementation against SpecifierSet.contains(prereleases=True) for every in-domain case.",
    design="8/C04",
    note=BASE_NOTE + "Also proved by composition (Proofs/ParseCompose.v): what _parse_constraint builds from a comma set of range-like clauses "
